@@ -148,3 +148,60 @@ class Memory:
         if p and isinstance(p[-1], int):
             return r, p[:-1] + (p[-1] + k,)
         return r, p + (k,)
+
+
+# ---------------------------------------------------------------- linear abstract values
+# A value is a linear form {atom: integer coefficient} over abstract atoms (("P", u) = coefficient u of a product,
+# ("init", location) = what a location held on entry).  Enough for copy / add / subtract / negate statements.
+def lin_add(a, b, sb=1):
+    out = dict(a)
+    for k, c in b.items():
+        out[k] = out.get(k, 0) + sb * c
+        if out[k] == 0:
+            del out[k]
+    return out
+
+
+def linear_eval(t, env, mem):
+    """value of a term as a linear form: loads are looked up in mem (LinearMemory), integers scale; None if not linear"""
+    k = t[0]
+    if k == "cast":
+        return linear_eval(t[2], env, mem)
+    c = eval_term(t, env)
+    if c is not None:
+        return {(): c} if c else {}
+    if k in ("idx", "fld"):
+        return mem.read(lvalue_location(t, env))
+    if k == "poly":
+        out = {}
+        for mono, coef in t[1]:
+            scal, form = coef, None
+            for a in mono:
+                av = eval_term(a, env)
+                if av is not None:
+                    scal *= av
+                elif form is None:
+                    form = linear_eval(a, env, mem)
+                    if form is None:
+                        return None
+                else:
+                    return None
+            out = lin_add(out, form if form is not None else {(): 1}, scal)
+        return out
+    return None
+
+
+class LinearMemory(Memory):
+    def read(self, loc):
+        val = Memory.read(self, loc)
+        if isinstance(val, dict):
+            return val
+        return {val: 1}            # ("init", loc) or a part of a larger write: an opaque atom
+
+    def store(self, loc, op, form):
+        if op == "=":
+            self.write(loc, form)
+        elif op in ("+=", "-="):
+            self.write(loc, lin_add(self.read(loc), form, 1 if op == "+=" else -1))
+        else:
+            raise NotEvaluable("operator %s" % op)
